@@ -1,7 +1,23 @@
 use core::num::ParseIntError;
 
+/// Checks that `hex` only contains hexadecimal digits. `from_str_radix` would
+/// otherwise accept a leading `+`, and slicing the string in the middle of a
+/// multi-byte character would panic.
+#[inline]
+fn check_digits(hex: &str) -> Result<(), ParseIntError> {
+    for (i, c) in hex.char_indices() {
+        if !c.is_ascii_hexdigit() {
+            // Parsing the offending character gives the "invalid digit" error.
+            u8::from_str_radix(&hex[i..i + c.len_utf8()], 16)?;
+        }
+    }
+
+    Ok(())
+}
+
 #[inline]
 pub(crate) fn rgb_from_hex_4bit(hex: &str) -> Result<(u8, u8, u8), ParseIntError> {
+    check_digits(hex)?;
     let red = u8::from_str_radix(&hex[..1], 16)?;
     let green = u8::from_str_radix(&hex[1..2], 16)?;
     let blue = u8::from_str_radix(&hex[2..3], 16)?;
@@ -19,6 +35,7 @@ pub(crate) fn rgba_from_hex_4bit(hex: &str) -> Result<(u8, u8, u8, u8), ParseInt
 
 #[inline]
 pub(crate) fn rgb_from_hex_8bit(hex: &str) -> Result<(u8, u8, u8), ParseIntError> {
+    check_digits(hex)?;
     let red = u8::from_str_radix(&hex[..2], 16)?;
     let green = u8::from_str_radix(&hex[2..4], 16)?;
     let blue = u8::from_str_radix(&hex[4..6], 16)?;
@@ -36,6 +53,7 @@ pub(crate) fn rgba_from_hex_8bit(hex: &str) -> Result<(u8, u8, u8, u8), ParseInt
 
 #[inline]
 pub(crate) fn rgb_from_hex_16bit(hex: &str) -> Result<(u16, u16, u16), ParseIntError> {
+    check_digits(hex)?;
     let red = u16::from_str_radix(&hex[..4], 16)?;
     let green = u16::from_str_radix(&hex[4..8], 16)?;
     let blue = u16::from_str_radix(&hex[8..12], 16)?;
@@ -53,6 +71,7 @@ pub(crate) fn rgba_from_hex_16bit(hex: &str) -> Result<(u16, u16, u16, u16), Par
 
 #[inline]
 pub(crate) fn rgb_from_hex_32bit(hex: &str) -> Result<(u32, u32, u32), ParseIntError> {
+    check_digits(hex)?;
     let red = u32::from_str_radix(&hex[..8], 16)?;
     let green = u32::from_str_radix(&hex[8..16], 16)?;
     let blue = u32::from_str_radix(&hex[16..24], 16)?;
